@@ -22,6 +22,20 @@ ALPHA = ["ok", 0, 1, 2, 9]
 FALSY = ["value", None, 0, b"", False, {}]
 
 
+def mk_exc(o, n, m):
+    """the exception a scripted attempt raises.  Every other one is *chained*: raised "from" errors of all the other classes (`__cause__`) and while yet
+    another was being handled (`__context__`) - the way errors surface from a real client.  Only the class of the exception raised is what the filters are about."""
+    e = CLS[o](n)
+    if (n + m) % 2 == 0:
+        prev = e
+        for c in [c for c in CLS if c != o]:
+            x = CLS[c](n)
+            prev.__cause__ = x
+            prev.__context__ = CLS[c](n)
+            prev = x
+    return e
+
+
 def Val(n, kind):
     """the object a successful scripted call returns; the monitor compares by identity, the model comparison by position"""
     return ("val", n) if kind == "value" else kind if kind is None or kind is False else kind
@@ -70,7 +84,7 @@ def run_real(retrying, attempts, rf, dnr, spelling, seq, delay, method="op", inn
     script = []
     for n, o in enumerate(seq):
         # what a successful call returns varies: a value, and the results a cache legitimately gives for a miss / an empty item (None, 0, b"", False, {})
-        script.append(("ok", Val(n, FALSY[(n + len(seq) + attempts) % len(FALSY)])) if o == "ok" else ("exc", CLS[o](n)))
+        script.append(("ok", Val(n, FALSY[(n + len(seq) + attempts) % len(FALSY)])) if o == "ok" else ("exc", mk_exc(o, n, len(seq))))
     inner = inner_cls(script, log)
     retrying.sleep = lambda d: log.append(("sleep", d))
     conv = {"tuple": tuple, "list": list, "set": set}[spelling]
@@ -91,7 +105,7 @@ def run_real(retrying, attempts, rf, dnr, spelling, seq, delay, method="op", inn
         first = ("raised", e, log, script)
     for seq2 in more:
         log2 = []
-        script2 = [("ok", Val(n, FALSY[(n + len(seq2)) % len(FALSY)])) if o == "ok" else ("exc", CLS[o](n)) for n, o in enumerate(seq2)]
+        script2 = [("ok", Val(n, FALSY[(n + len(seq2)) % len(FALSY)])) if o == "ok" else ("exc", mk_exc(o, n, len(seq2))) for n, o in enumerate(seq2)]
         inner.script, inner.log, inner.i = script2, log2, 0
         retrying.sleep = lambda d, _l=log2: _l.append(("sleep", d))
         try:
